@@ -276,6 +276,9 @@ pub struct Gener {
     counter_keys: Vec<Vec<u8>>,
     seq: u32,
     big_budget: usize,
+    /// scripted chain played before the random part (built at the first call, when `now` is known)
+    script: std::collections::VecDeque<Op>,
+    script_kind: u64,
 }
 
 fn long_key(fill: u8, len: usize) -> Vec<u8> {
@@ -328,7 +331,11 @@ impl Gener {
         }
         let json_keys = keys.iter().filter(|k| k.len() < 100).take(3).cloned().collect();
         let counter_keys = keys.iter().filter(|k| k.len() < 100).skip(3).take(3).cloned().collect();
-        Gener { rng, keys, bad_keys, json_keys, counter_keys, seq: 0, big_budget: 2 }
+        // some timestamp/TTL programs start with a scripted chain that random generation reaches too
+        // rarely: keys whose newest generation carries a timestamp ahead of the wall clock and a short
+        // TTL, left to expire, then a clean reopen, then automatically timestamped calls on those keys
+        let script_kind = if matches!(spec.focus, Focus::Ts | Focus::Ttl) && spec.cfg.ttl && rng.chance(1, 3) { 1 + rng.below(3) } else { 0 };
+        Gener { rng, keys, bad_keys, json_keys, counter_keys, seq: 0, big_budget: 2, script: Default::default(), script_kind }
     }
 
     fn key(&mut self) -> Vec<u8> {
@@ -421,7 +428,52 @@ impl Gener {
         }
     }
 
+    fn build_script(&mut self, spec: &ProgSpec, m: &Model) {
+        let kind = std::mem::take(&mut self.script_kind);
+        let now = m.now;
+        let ahead = *self.rng.pick(&[3 * NS, 3600 * NS, 1u64 << 58]);
+        let ks: Vec<Vec<u8>> = (0..3).map(|_| self.rng.pick(&self.keys).clone()).collect();
+        for (i, k) in ks.iter().enumerate() {
+            let v = self.value(spec, k);
+            match (kind + i as u64) % 3 {
+                0 => self.script.push_back(Op::InsertTtl { k: k.clone(), v, ttl: 1, ts: Ts::Explicit(now + ahead + i as u64), bytes: false, plain_api: false }),
+                1 => {
+                    self.script.push_back(Op::Insert { k: k.clone(), v, ts: Ts::Explicit(now + ahead + i as u64), bytes: false });
+                    self.script.push_back(Op::UpdateTtl { k: k.clone(), ttl: 1 });
+                }
+                _ => {
+                    self.script.push_back(Op::Incr { k: k.clone(), delta: 1, ts: Ts::Explicit(now + ahead + i as u64), ttl: Some(2) });
+                    self.script.push_back(Op::UpdateTtl { k: k.clone(), ttl: 1 });
+                }
+            }
+        }
+        if self.rng.chance(1, 2) {
+            self.script.push_back(Op::Flush);
+        }
+        self.script.push_back(Op::Clock { to: now + 4 * NS });
+        if spec.cfg.persistent {
+            self.script.push_back(Op::Reopen { ttl: None, cache: None });
+        }
+        for k in &ks {
+            let v = self.value(spec, k);
+            self.script.push_back(match self.rng.below(5) {
+                0 => Op::Insert { k: k.clone(), v, ts: Ts::None, bytes: false },
+                1 => Op::Incr { k: k.clone(), delta: 2, ts: Ts::None, ttl: None },
+                2 => Op::InsertIfAbsent { k: k.clone(), v },
+                3 => Op::InsertTtl { k: k.clone(), v, ttl: 60, ts: Ts::None, bytes: true, plain_api: true },
+                _ => Op::Delete { k: k.clone(), ts: Ts::None },
+            });
+            self.script.push_back(Op::Get { k: k.clone(), bytes: false });
+        }
+    }
+
     pub fn next(&mut self, spec: &ProgSpec, m: &Model) -> Op {
+        if self.script_kind != 0 {
+            self.build_script(spec, m);
+        }
+        if let Some(op) = self.script.pop_front() {
+            return op;
+        }
         let focus = &spec.focus;
         // weights: [insert, insert_ttl, get, get_size/contains, delete, cas, incr, iia, patch, update_ttl/persist, get_ttl, range, flush, reopen, clock]
         let w: [u64; 15] = match focus {
@@ -949,10 +1001,11 @@ impl<'a> Runner<'a> {
         // recovery feeds the clock with the timestamp of every record it scans, including winners it then
         // drops as expired: what counts as "recovered from disk" is the model's contents before that purge
         let recovered_near_max = self.model.keys.values().any(|g| g.ts >= u64::MAX - (1 << 20) && g.ts != u64::MAX);
+        let recovered_max = self.model.keys.values().map(|g| g.ts).max().unwrap_or(0);
+        self.pinned = self.model.keys.iter().filter(|(k, g)| g.ts >= u64::MAX - 1 && self.pinned.contains(*k)).map(|(k, _)| k.clone()).collect();
         self.model.reopen();
         self.failed_explicit.clear();
-        self.pinned = self.model.keys.iter().filter(|(k, g)| g.ts >= u64::MAX - 1 && self.pinned.contains(*k)).map(|(k, _)| k.clone()).collect();
-        self.max_accepted = self.model.keys.values().map(|g| g.ts).max().unwrap_or(0);
+        self.max_accepted = recovered_max;
         self.near_max_accepted = recovered_near_max;
         self.compare_state(step, &op, None)?;
         self.full_sweep(step, &op)?;
